@@ -92,9 +92,9 @@ func VerifC10_percentile_interpolated() {
 			li := verifConcretize(int64(math.Floor(findex)), 16)
 			lo := float64(10 * (li + 1))
 			frac := findex - float64(li)
-			if n <= 2 || verifTier() > 0 {
-				// exact agreement with the documented formula (FP theory); for n = 5 no back end
-				// decides it within the quick cap, so quick asserts it for n <= 2 only
+			if verifTier() > 0 {
+				// exact agreement with the documented formula (FP theory): thorough tier only — under
+				// the quick cap the query is load-sensitive; quick asserts the neighbour bounds
 				verifAssert(got == lo+frac*10, "C10/ipct/interpolation-formula")
 			}
 			verifAssert(got >= lo && got <= lo+10, "C10/ipct/between-neighbours")
